@@ -174,4 +174,38 @@ def specOutermost (items : List Item) (xs : List Nat) : List Nat :=
 /-- fn:root -/
 def specRoot (n : Nat) (i : Nat) : Option Nat := if i < n then some 0 else none
 
+/-! ### a few path forms, evaluated on the item list from a focus node (document-rooted trees)
+
+XPath 3.1 §3.3: every operand of an operator is evaluated in the dynamic context (focus) of the
+operator expression itself.  Codes: `D<n>` = `//n`, `T` = `/*`, `K<n>` = `/*/n` (absolute);
+`c<n>` = `n`, `d<n>` = `.//n`, `p` = `..`, `s` = `.`, `t` = `@*` (relative to the focus);
+`<n>` is a local name or `*`; a trailing `1` takes the first node in document order (`(E)[1]`). -/
+
+def elemNamed (it : Item) (n : String) : Bool :=
+  it.kind == .element && (n == "*" || it.name == some n)
+
+def pathEvalCore (items : List Item) (focus : Nat) (form : Char) (n : String) : List Nat :=
+  let all := List.range items.length
+  let get (i : Nat) : Option Item := items[i]?
+  match form with
+  | 'D' => all.filter fun i => (get i).any (elemNamed · n)
+  | 'T' => all.filter fun i => (get i).any fun it => it.kind == .element && it.parent == some 0
+  | 'K' => all.filter fun i => (get i).any fun it => elemNamed it n &&
+      (it.parent.bind get).any fun pit => pit.kind == .element && pit.parent == some 0
+  | 'c' => all.filter fun i => (get i).any fun it => elemNamed it n && it.parent == some focus
+  | 'd' => all.filter fun i => (get i).any fun it => elemNamed it n && isAncestor items focus i items.length
+  | 'p' => ((get focus).bind (·.parent)).toList
+  | 's' => [focus]
+  | 't' => all.filter fun i => (get i).any fun it => it.kind == .attribute && it.parent == some focus
+  | _ => []
+
+def pathEval (items : List Item) (focus : Nat) (code : String) : List Nat :=
+  match code.toList with
+  | [] => []
+  | form :: rest =>
+    let first := rest.getLast? == some '1'
+    let name := String.ofList (if first then rest.dropLast else rest)
+    let r := pathEvalCore items focus form name
+    if first then r.take 1 else r
+
 end EPV.XDM
